@@ -1,4 +1,5 @@
 (* C01 - the lexer is total and lossless: tokens partition the input text. *)
+From SqlModel.Gen Require LexPins.
 From SqlModel Require Import Base Re MinWidth Lexer LexFacts.
 From SqlModel.Gen Require Import CaseTabs KwTabs Rules.
 From SqlModel.Inst Require Import Cur C01.
@@ -23,3 +24,9 @@ Example C01_unterminated_quote :
   cur_lex [39; 97; 32; 55357]%N
   = Ok [(T_Error, [39]%N); (T_Name, [97]%N); (T_Whitespace, [32]%N); (T_Error, [55357]%N)].
 Proof. vm_compute. reflexivity. Qed.
+
+(* the hand-modelled scan loop / keyword lookup / class-level state of sqlparse/lexer.py still have the pinned shape
+   (tools/regen/gen_lexpins.py fails closed otherwise and this file no longer compiles) *)
+Example C01_lexer_shape : SqlModel.Gen.LexPins.lexer_shape_checked = true.
+Proof. reflexivity. Qed.
+
